@@ -45,7 +45,7 @@ WORKERS = {"quick": 1, "thorough": 14}
 
 def gen_cases(ctx):
     rng = ctx.rng
-    for i in range(ctx.scale(6000, 150000)):
+    for i in range(ctx.scale(6000, 900000)):
         c = gen_history_case(rng, max_jobs=rng.choice([2, 3, 4, 5]), max_machines=rng.choice([2, 3, 4]))
         c["kind"] = "interleaving"
         yield c
